@@ -571,20 +571,35 @@ func drawG6(t *rapid.T) g6Case {
 }
 
 func TestG6RoundTrip(t *testing.T) {
-	// all graphs on <= 5 nodes (digraphs: <= 4 in the quick tier, <= 5 thorough)
-	var cases []g6Case
+	// all graphs on <= 5 nodes (digraphs: <= 4 in the quick tier, <= 5 thorough),
+	// generated from the index so that the list is never materialized
+	type block struct {
+		directed bool
+		n        int
+		count    int
+	}
+	var blocks []block
+	total := 0
 	for n := 0; n <= 5; n++ {
-		for m := uint64(0); m < 1<<uint(n*(n-1)/2); m++ {
-			cases = append(cases, g6Case{N: n, UseMask: true, Mask: m, IDMode: int(m % 3), IDBase: -7, IDStep: 3, Seed: m})
-		}
+		blocks = append(blocks, block{false, n, 1 << uint(n*(n-1)/2)})
 	}
 	for n := 0; n <= vk.Pick(4, 5); n++ {
-		for m := uint64(0); m < 1<<uint(n*(n-1)); m++ {
-			cases = append(cases, g6Case{Directed: true, N: n, UseMask: true, Mask: m, IDMode: int(m % 3), IDBase: -7, IDStep: 3, Seed: m})
-		}
+		blocks = append(blocks, block{true, n, 1 << uint(n*(n-1))})
 	}
-	vk.Enumerate(t, "g6-rt", len(cases), func(i int) g6Case { return cases[i] }, checkG6RoundTrip)
-	vk.Run(t, "g6-rt", vk.Opts{Quick: 4000, Thorough: 100000, NoCrumb: true}, drawG6, checkG6RoundTrip)
+	for _, b := range blocks {
+		total += b.count
+	}
+	vk.Enumerate(t, "g6-rt", total, func(i int) g6Case {
+		for _, b := range blocks {
+			if i < b.count {
+				m := uint64(i)
+				return g6Case{Directed: b.directed, N: b.n, UseMask: true, Mask: m, IDMode: int(m % 3), IDBase: -7, IDStep: 3, Seed: m}
+			}
+			i -= b.count
+		}
+		panic("unreachable")
+	}, checkG6RoundTrip)
+	vk.Run(t, "g6-rt", vk.Opts{Quick: 4000, Thorough: 60000, NoCrumb: true}, drawG6, checkG6RoundTrip)
 }
 
 // ---- totality ------------------------------------------------------------------
@@ -818,5 +833,5 @@ func TestG6Totality(t *testing.T) {
 		}
 	}
 	vk.Enumerate(t, "g6-total", len(cases), func(i int) g6BytesCase { return cases[i] }, checkG6Bytes)
-	vk.Run(t, "g6-total", vk.Opts{Quick: 30000, Thorough: 600000, NoCrumb: true}, drawG6Bytes, checkG6Bytes)
+	vk.Run(t, "g6-total", vk.Opts{Quick: 30000, Thorough: 400000, NoCrumb: true}, drawG6Bytes, checkG6Bytes)
 }
